@@ -96,23 +96,25 @@ Inductive op :=
 (* NACK packets of one tick: (MediaSSRC, requested sequence numbers) ascending by SSRC *)
 Definition tick_out := list (Z * list Z).
 
-Definition tick_outs (c : cfg) (g : gen) : tick_out :=
+(* the range loop of one tick, evaluated once for every bound SSRC *)
+Definition tick_list (c : cfg) (g : gen) : list (Z * (option (list Z) * option cmap)) :=
   flat_map (fun k =>
     match g_logs g k with
     | None => []
-    | Some lg =>
-        match fst (tick_one (c_max c) (missing lg (c_skip c)) (g_cnts g k)) with
-        | None => []
-        | Some r => [(k, r)]
-        end
+    | Some lg => [(k, tick_one (c_max c) (missing lg (c_skip c)) (g_cnts g k))]
     end) (g_keys g).
 
-Definition tick_cnts (c : cfg) (g : gen) : Z -> option cmap :=
-  fun k =>
-    match g_logs g k with
-    | None => g_cnts g k
-    | Some lg => snd (tick_one (c_max c) (missing lg (c_skip c)) (g_cnts g k))
-    end.
+Fixpoint afind {A} (l : list (Z * A)) (k : Z) : option A :=
+  match l with
+  | [] => None
+  | (k', v) :: tl => if k =? k' then Some v else afind tl k
+  end.
+
+Definition outs_of (l : list (Z * (option (list Z) * option cmap))) : tick_out :=
+  flat_map (fun kr => match fst (snd kr) with None => [] | Some r => [(fst kr, r)] end) l.
+
+Definition cnts_of (l : list (Z * (option (list Z) * option cmap))) (old : Z -> option cmap) : Z -> option cmap :=
+  fun k => match afind l k with Some r => snd r | None => old k end.
 
 Definition step (c : cfg) (g : gen) (o : op) : gen * option tick_out :=
   match o with
@@ -129,7 +131,8 @@ Definition step (c : cfg) (g : gen) (o : op) : gen * option tick_out :=
       | None => (g, None)
       end
   | Arrive k seq false => (g, None)
-  | Tick => (mk_gen (g_keys g) (g_logs g) (tick_cnts c g), Some (tick_outs c g))
+  | Tick => let l := tick_list c g in
+            (mk_gen (g_keys g) (g_logs g) (cnts_of l (g_cnts g)), Some (outs_of l))
   end.
 
 (* outputs of all ticks of a history *)
